@@ -35,6 +35,15 @@ func RunSharded(jobs []Job, budget time.Duration) ShardResult {
 		runWorker(jobs, w)
 		os.Exit(0)
 	}
+	if only := os.Getenv("VERIF_ONLY"); only != "" {
+		var f []Job
+		for _, j := range jobs {
+			if strings.Contains(j.Name, only) {
+				f = append(f, j)
+			}
+		}
+		jobs = f
+	}
 	nproc := runtime.NumCPU()
 	if s := os.Getenv("VERIF_PROCS"); s != "" {
 		if n, err := strconv.Atoi(s); err == nil && n > 0 {
@@ -89,6 +98,9 @@ func RunSharded(jobs []Job, budget time.Duration) ShardResult {
 				var stdout, stderr bytes.Buffer
 				cmd.Stdout = &stdout
 				cmd.Stderr = &stderr
+				if os.Getenv("VERIF_DEBUG") != "" {
+					cmd.Stderr = os.Stderr
+				}
 				err := cmd.Run()
 				done := map[string]bool{}
 				sc := bufio.NewScanner(&stdout)
@@ -107,8 +119,13 @@ func RunSharded(jobs []Job, budget time.Duration) ShardResult {
 				}
 				if err != nil {
 					tail := stderr.String()
+					if i := strings.Index(tail, "panic:"); i >= 0 {
+						tail = tail[i:]
+					} else if i := strings.Index(tail, "fatal error:"); i >= 0 {
+						tail = tail[i:]
+					}
 					if len(tail) > 3000 {
-						tail = tail[len(tail)-3000:]
+						tail = tail[:3000]
 					}
 					var missing []string
 					for _, x := range c {
